@@ -34,7 +34,7 @@ func boundedC10U(repo, verifDir string, thorough bool) (map[string]interface{}, 
 		report["error"] = err.Error()
 		return report, nil
 	}
-	n := "5"
+	n := "4"
 	if thorough {
 		n = "6"
 	}
@@ -60,7 +60,7 @@ func boundedC10U(repo, verifDir string, thorough bool) (map[string]interface{}, 
 		report["error"] = "bounded run produced no result:\n" + out
 		return report, []boundedFinding{{Name: "bounded/C10U/run", Replay: "the bounded stand-in could not be run:\n" + out}}
 	}
-	report["bound"] = fmt.Sprintf("every string of 1..%d characters over the alphabet %q (%d strings): removeUnicode(ToLower(v)) compared with an independent decoder of CSS escapes", res.MaxLen, res.Alphabet, res.Evaluated)
+	report["bound"] = fmt.Sprintf("values x·s·x for every string s of 1..%d characters over the alphabet %q, and x·\\h·t·x for every hex string h of 1..6 digits over \"012 7adf\" with t one of \"\", \" \", \"g\" (%d values): removeUnicode(ToLower(v)) compared with an independent decoder of CSS escapes", res.MaxLen, res.Alphabet, res.Evaluated)
 	report["evaluated"] = res.Evaluated
 	report["divergent_by_class"] = res.Divergent
 	report["examples"] = res.Examples
